@@ -77,6 +77,25 @@ impl Arena {
         }
     }
 
+    /// A function whose entry is padding: `shape` 6..=14 gives 8..=16 bytes of `endbr64` (even
+    /// shapes) and one-byte `nop`s before the first real instruction `mov eax, id; ret` (an entry
+    /// label in front of alignment padding that falls through into the code).  With 16 bytes of
+    /// padding the code itself sits in the next 16-byte slot.
+    pub fn put_sled(&self, addr: usize, id: u32, shape: u8) -> bool {
+        let pad = 8 + (shape.clamp(6, 14) - 6) as usize;
+        let mut code: Vec<u8> = vec![];
+        if shape % 2 == 0 {
+            code.extend_from_slice(&[0xF3, 0x0F, 0x1E, 0xFA]);
+        }
+        while code.len() < pad {
+            code.push(0x90);
+        }
+        code.push(0xB8);
+        code.extend_from_slice(&id.to_le_bytes());
+        code.push(0xC3);
+        self.put(addr, &code)
+    }
+
     pub fn put(&self, addr: usize, code: &[u8]) -> bool {
         if !self.contains(addr, code.len()) {
             return false;
